@@ -41,7 +41,7 @@ ANCHORS = [
     ('pjrpc/client/retry.py', 'retry'), ('pjrpc/client/retry.py', 'retry_async'),
 ]
 FLOORS = {'*': {'pair:dispatch-text': 3000, 'pair:dispatch-plain-vs-coroutine': 3000, 'pair:middleware': 500, 'pair:retry': 500,
-                'pair:notation': 300, 'pair:match': 300, 'pair:notification-body': 150, 'retry:with-tracers': 200, 'retry:retried': 200, 'pair:trace': 300,
+                'pair:notation': 300, 'pair:match': 300, 'pair:notification-body': 150, 'pair:batch-object-reused': 30, 'retry:with-tracers': 200, 'retry:retried': 200, 'pair:trace': 300,
                 'middleware:failing-with-handlers': 100}}
 
 
@@ -302,6 +302,52 @@ def run_match(ctx, n, doc, strict, op, ids):
     ctx.ok('match', cls, sample={'calls': n, 'response_text': text, 'observation': obs[False]})
 
 
+def run_batch_reuse(ctx, program, via_proxy, fail_first):
+    """one batch object used for several round trips: add calls, fire, add more, fire again (optionally with a transport
+    failure on the first firing). program: [n_adds_before_each_firing, ...]"""
+    obs = {}
+    for is_async in (False, True):
+        w = serverside.get_world(is_async, None)
+        inner = clientside.loopback_transport(w, is_async)
+        state = {'n': 0}
+
+        def transport(text, is_notification, kwargs, inner=inner, state=state):
+            state['n'] += 1
+            if fail_first and state['n'] == 1:
+                raise ConnectionError('first firing lost')
+            return inner(text, is_notification, kwargs)
+
+        cls_ = clientside.AsyncClient if is_async else clientside.SyncClient
+        client = cls_(transport)
+        w.log.clear()
+        b = client.batch
+        outcomes, tok = [], 0
+        for n_adds in program:
+            target = b.proxy if via_proxy else b
+            for _ in range(n_adds):
+                tok += 1
+                target = getattr(target, 'ok')(f'r{tok}') if via_proxy else target.add('ok', f'r{tok}')
+            fire = target if via_proxy else b
+            st, out = clientside.outcome_of(lambda: fire.call(), is_async)
+            outcomes.append(norm_out(st, out) if st == 'exc' else ['ret', repr(out)])
+        wire = []
+        for sent in client.wire.sent:
+            try:
+                wire.append(strictjson.decode(sent['text']))
+            except strictjson.NotJson:
+                wire.append(sent['text'])
+        obs[is_async] = {'wire': wire, 'outcome': outcomes, 'executions': serverside.normalise_calls(w.log.calls)}
+    ctx.hit('pair:batch-object-reused')
+    cls = (tuple(program), via_proxy, fail_first)
+    for aspect in ('wire', 'outcome', 'executions'):
+        if obs[False][aspect] != obs[True][aspect]:
+            ctx.violation(f'client-halves-differ:{aspect}:batch-object-used-for-several-round-trips', 'batch-reuse', cls, program=program,
+                          via_proxy=via_proxy, first_firing_fails=fail_first, sync=obs[False][aspect], asynchronous=obs[True][aspect])
+            return
+    ctx.ok('batch-reuse', cls, sample={'program': program, 'via_proxy': via_proxy, 'first_firing_fails': fail_first,
+                                       'observation': obs[False]})
+
+
 NOTIFY_BODIES = [None, '', ' ', '\n', '\t\r\n ', 'null', '[]', '{}', '""', '0', '{"jsonrpc": "2.0", "id": null, "result": 1}',
                  '{"jsonrpc": "2.0", "id": 5, "result": 1}', '[{"jsonrpc": "2.0", "id": 1, "result": 1}]', 'garbage', '\ufeff', 'é']
 
@@ -388,6 +434,10 @@ def gen(ctx):
             k += 1
             yield 'trace', dict(n_tracers=1 + k % 3, attempts=attempts, script=list(script),
                                 kind=('single', 'batch', 'notification')[k % 3], supplied_ctx=bool(k % 2))
+    for program in ([1, 1], [2, 1], [2, 0], [1, 2, 1], [0, 1], [3, 3], [1, 0, 0], [2, 2, 2, 2]):
+        for via_proxy in (False, True):
+            for fail_first in (False, True):
+                yield 'batch-reuse', dict(program=program, via_proxy=via_proxy, fail_first=fail_first)
     for body in NOTIFY_BODIES:
         for strict in (True, False):
             for kind in ('send', 'notify', 'batch'):
@@ -420,4 +470,4 @@ def gen(ctx):
 
 
 KINDS = {'text': run_text, 'mw': run_mw, 'retry': run_retry, 'notation': run_notation, 'match': run_match, 'trace': run_trace,
-         'notify-body': run_notify_body}
+         'notify-body': run_notify_body, 'batch-reuse': run_batch_reuse}
